@@ -16,12 +16,13 @@ def run(ctx, res):
         "passes pause_on_char = true (reviewed exceptions listed); R6 every endpoint returned by a seam formatter is the "
         "seam, a pausing-scanner result or such a position + 1 on a line break, and every dedent range is clamped by "
         "min(_, first non-blank of the line); R7 marker extents are exactly the tag token boundaries and the unwrap pair is "
-        "built only under head.end <= tail.start.  R3b/R8 (ordering enumeration: complete tables over the weak orderings of four endpoints) one merge step of merge_overlapped_ranges never covers a position outside the two ranges it combines, sorted or not, and merge_child_markers absorbs every child that overlaps the head/tail and covers an absorbed child entirely.  Not decided: that merge_ranges keeps the list sorted, that merged child "
+        "built only under head.end <= tail.start.  R3b/R8 (ordering enumeration: complete tables over the weak orderings of four endpoints) one merge step of merge_overlapped_ranges never covers a position outside the two ranges it combines, sorted or not, and merge_child_markers absorbs every child that overlaps the head/tail and covers an absorbed child entirely.  R3c one step of merge_ranges' backward search stops exactly at an entry that starts before the new range (or at index 0) and the new range is inserted directly behind it: the list stays sorted by start.  Not decided: that merged child "
         "markers stay inside the parent, the exact surviving text.")
     res.trusted += ["String::replace_range(r, \"\") deletes exactly r", "driver fact extraction and the abstract interpreter"]
     deletion.sinks(ctx, res, "C02.R1", "C02.R2")
     deletion.merged_before_delete(ctx, res, "C02.R3")
     intervals.union_rule(ctx, res, "C02.R3b")
+    intervals.insertion_rule(ctx, res, "C02.R3c")
     intervals.absorb_rule(ctx, res, "C02.R8")
     intervals.halves_disjoint(ctx, res, "C02.R9")
     deletion.scanner_tables(ctx, res, "C02.R4")
